@@ -18,6 +18,7 @@ import (
 	"github.com/metrico/qryn/reader/logql/logql_transpiler_v2/shared"
 	rmodel "github.com/metrico/qryn/reader/model"
 	"github.com/metrico/qryn/reader/utils/dbVersion"
+	rlogger "github.com/metrico/qryn/reader/utils/logger"
 	sqlsel "github.com/metrico/qryn/reader/utils/sql_select"
 	"github.com/metrico/qryn/reader/utils/tables"
 
@@ -224,6 +225,7 @@ func NewRunner(cluster bool, metrics15s bool) *Runner {
 		cfg := clconfig.New(clconfig.CLOKI_READER, nil, "", "")
 		cfg.Setting.DATABASE_DATA = []config.ClokiBaseDataBase{{Node: "n1", Name: "db"}}
 		rconfig.Cloki = cfg
+		rlogger.InitLogger() // the pipeline goroutines log through it when they recover from a panic
 	}
 	return r
 }
@@ -240,6 +242,15 @@ type Output struct {
 // Run replicates QueryRangeService.prepareOutput (same calls, same context fields) and drains
 // the output channel.
 func (r *Runner) Run(db *chsql.DB, req *Request, timeout time.Duration) *Output {
+	return r.run(db, req.QueryString(), req, timeout)
+}
+
+// RunText runs a literal query text (development aid / replay of raw queries).
+func (r *Runner) RunText(db *chsql.DB, q string, start, end int64, step time.Duration, limit int64, timeout time.Duration) *Output {
+	return r.run(db, q, &Request{StartNs: start, EndNs: end, Step: step, Limit: limit}, timeout)
+}
+
+func (r *Runner) run(db *chsql.DB, queryText string, req *Request, timeout time.Duration) *Output {
 	r.mu.Lock()
 	r.cur = db
 	r.Execs = nil
@@ -248,7 +259,16 @@ func (r *Runner) Run(db *chsql.DB, req *Request, timeout time.Duration) *Output 
 	ctx, cancelAll := context.WithTimeout(context.Background(), timeout)
 	defer cancelAll()
 	conn, _ := r.Reg.GetDB(ctx)
-	chain, err := logql_transpiler_v2.Transpile(req.QueryString())
+	var chain shared.RequestProcessorChain
+	var err error
+	func() {
+		defer func() { // the HTTP handler recovers panics of the synchronous part the same way
+			if p := recover(); p != nil {
+				err = fmt.Errorf("panic while planning: %v", p)
+			}
+		}()
+		chain, err = logql_transpiler_v2.Transpile(queryText)
+	}()
 	if err != nil {
 		out.Err = err
 		return out
@@ -278,7 +298,15 @@ func (r *Runner) Run(db *chsql.DB, req *Request, timeout time.Duration) *Output 
 		VersionInfo: versionInfo,
 	}, conn)
 	out.IsMatrix = chain[0].IsMatrix()
-	ch, err := chain[0].Process(pctx, nil)
+	var ch chan []shared.LogEntry
+	func() {
+		defer func() {
+			if p := recover(); p != nil {
+				err = fmt.Errorf("panic while planning: %v", p)
+			}
+		}()
+		ch, err = chain[0].Process(pctx, nil)
+	}()
 	if err != nil {
 		out.Err = err
 		r.mu.Lock()
@@ -325,3 +353,53 @@ func Unsupported(err error) bool {
 }
 
 var _ = rmodel.DataDatabasesMap{}
+
+// RunProcessor drains a processor chain that needs no database (scripted upstream).
+func RunProcessor(proc shared.RequestProcessor, req *Request, timeout time.Duration) *Output {
+	out := &Output{}
+	ctx, cancelAll := context.WithTimeout(context.Background(), timeout)
+	defer cancelAll()
+	_ctx, cancel := context.WithCancel(ctx)
+	defer cancel()
+	pctx := &shared.PlannerContext{
+		From:       time.Unix(req.StartNs/1000000000, 0),
+		To:         time.Unix(req.EndNs/1000000000, 0),
+		OrderASC:   req.Forward,
+		Limit:      req.Limit,
+		Ctx:        _ctx,
+		CancelCtx:  cancel,
+		CHFinalize: true,
+		Step:       req.Step,
+		CHSqlCtx:   &sqlsel.Ctx{Params: map[string]sqlsel.SQLObject{}, Result: map[string]sqlsel.SQLObject{}},
+	}
+	out.IsMatrix = proc.IsMatrix()
+	ch, err := proc.Process(pctx, nil)
+	if err != nil {
+		out.Err = err
+		return out
+	}
+	done := make(chan struct{})
+	go func() {
+		defer close(done)
+		for es := range ch {
+			for _, e := range es {
+				if e.Err == io.EOF {
+					continue
+				}
+				if e.Err != nil {
+					if out.Err == nil {
+						out.Err = e.Err
+					}
+					continue
+				}
+				out.Entries = append(out.Entries, e)
+			}
+		}
+	}()
+	select {
+	case <-done:
+	case <-ctx.Done():
+		out.TimedOut = true
+	}
+	return out
+}
